@@ -123,6 +123,12 @@ pub fn sfs<S: AsRef<str>>(ctx: &Ctx, args: &[S], input: Input<'_>, cwd: &Path) -
     run_bin(ctx, &ctx.sfs_bin, args, input, cwd, &[])
 }
 
+thread_local! {
+    /// When set, the next spawned children of this thread are pinned to these CPUs (C12 uses it to
+    /// force different interleavings of the BGZF worker threads).
+    pub static PIN_CPUS: std::cell::RefCell<Option<Vec<usize>>> = const { std::cell::RefCell::new(None) };
+}
+
 pub fn run_bin<S: AsRef<str>>(ctx: &Ctx, bin: &Path, args: &[S], input: Input<'_>, cwd: &Path, env: &[(&str, &str)]) -> Run {
     ctx.subprocess_runs.fetch_add(1, Ordering::Relaxed);
     let mut cmd = Command::new(bin);
@@ -155,6 +161,15 @@ pub fn run_bin<S: AsRef<str>>(ctx: &Ctx, bin: &Path, args: &[S], input: Input<'_
     // the child keeps the fast posix_spawn path; the child cannot allocate much before it has read
     // its input). An allocation failure under this cap is reported separately
     // (`Run::allocation_failed`) and is not a property violation.
+    if let Some(cpus) = PIN_CPUS.with(|p| p.borrow().clone()) {
+        unsafe {
+            let mut set: libc::cpu_set_t = std::mem::zeroed();
+            for c in cpus {
+                libc::CPU_SET(c, &mut set);
+            }
+            libc::sched_setaffinity(pid as libc::pid_t, std::mem::size_of::<libc::cpu_set_t>(), &set);
+        }
+    }
     if CAP_ADDRESS_SPACE.load(Ordering::Relaxed) {
         let lim = libc::rlimit {
             rlim_cur: ADDRESS_SPACE_LIMIT,
